@@ -26,6 +26,7 @@ RULE = (
     "end-of-data verdict. Finally the output is read back under a fresh copy of the CID: every row accepted, values "
     "equal to the written ones (fixed: padded), same end-of-data verdict. Non-trivial: >= 1 rejected row followed by "
     ">= 1 accepted row; distinct by hash of (CID rows, history)."
+    "Rows are handed over one write_row() at a time or ('bulk') every run of acceptable rows - header and data alike - in one write_rows() call (list or iterator). The free-text field may be the first field and then sometimes starts with a byte order mark, 'sep=;', 'ID' or '#'."
 )
 ASSUMPTIONS = [
     "fixed-width values handed to the writer carry no trailing blanks (the format cannot represent them)",
